@@ -243,7 +243,9 @@ fn build_credential_attributes<'p>(
         if let Some(ref names) = requested_attribute.names {
             for name in names {
                 let (attribute, value) = credentials.cred.get_case_insensitive_attribute(name)?;
-                attributes.add_attribute(attribute, value);
+                if *reveal {
+                    attributes.add_attribute(attribute, value);
+                }
             }
         }
     }
